@@ -4,7 +4,11 @@ go 1.23.0
 
 require (
 	github.com/matrix-org/gomatrixserverlib v0.0.0
+	github.com/miekg/dns v1.1.66
 	github.com/sirupsen/logrus v1.9.3
+	github.com/tidwall/gjson v1.18.0
+	golang.org/x/crypto v0.38.0
+	gopkg.in/macaroon.v2 v2.1.0
 )
 
 require (
@@ -12,14 +16,12 @@ require (
 	github.com/matrix-org/gomatrix v0.0.0-20220926102614-ceba4d9f7530 // indirect
 	github.com/matrix-org/util v0.0.0-20221111132719-399730281e66 // indirect
 	github.com/oleiade/lane/v2 v2.0.0 // indirect
-	github.com/tidwall/gjson v1.18.0 // indirect
 	github.com/tidwall/match v1.1.1 // indirect
 	github.com/tidwall/pretty v1.2.1 // indirect
 	github.com/tidwall/sjson v1.2.5 // indirect
-	golang.org/x/crypto v0.38.0 // indirect
 	golang.org/x/exp v0.0.0-20220827204233-334a2380cb91 // indirect
+	golang.org/x/net v0.40.0 // indirect
 	golang.org/x/sys v0.33.0 // indirect
-	gopkg.in/macaroon.v2 v2.1.0 // indirect
 )
 
 replace github.com/matrix-org/gomatrixserverlib => /repo
